@@ -42,3 +42,16 @@ CHECKS["C02"] = {
         {"pkg": MUX, "run": "^TestVerif_C02_Sampled$", "checks": {"quick": 5000, "thorough": 1000000}, "shards": {"thorough": 16}},
     ],
 }
+
+CHECKS["C01"] = {
+    "level": "exploration",
+    "technique": "rapid-generated operation sequences (write/deliver/read per connection and segment) interpreted on a real Session pair over a test-owned network inside a synctest bubble; PRF-tagged byte-stream reference model",
+    "level_text": "Generated interleavings of writes, per-connection deliveries (whole record / part of a record) and reads on a real client/server Session pair; cross-connection overtaking and TCP segmentation are generated values, not scheduling luck; every byte read is checked against a per-stream PRF model and final equality is required.",
+    "level_note": "Goroutine schedules between quiescence points are the Go runtime's; only the client opens streams (as every real caller does); the network never drops or duplicates bytes.",
+    "rule": "rapid draws (method, 1..8 conns or singleplex, key, switchboard seed) and up to 150 (900) ops over 1..6 (300) streams; non-trivial = some frame was handed to the receiver while a lower-numbered frame of the same stream was still undelivered on another connection, or a record was delivered in >=2 segments; distinct = distinct scenarios.",
+    "assumptions": ["the in-memory network delivers each byte exactly once in per-connection order", "only the client side opens streams"],
+    "jobs": [
+        {"pkg": MUX, "run": "^TestVerif_C01_SessionPair$", "checks": {"quick": 1500, "thorough": 200000}, "shards": {"thorough": 16}},
+        {"pkg": MUX, "run": "^TestVerif_C01_ManyStreams$", "checks": {"quick": 40, "thorough": 3000}, "shards": {"thorough": 16}},
+    ],
+}
